@@ -4,6 +4,7 @@ import (
 	"bytes"
 	"fmt"
 	"io"
+	"os"
 	"time"
 
 	"github.com/tendermint/tendermint/consensus"
@@ -98,3 +99,29 @@ func CheckWALReadable(n *PNode) string {
 
 // WALFile is the path of the node's WAL head file.
 func (p *Persist) WALFile() string { return p.walFile() }
+
+// DumpWAL prints the records of the WAL head file up to the first undecodable one (debugging aid).
+func DumpWAL(path, title string) {
+	f, err := os.Open(path)
+	if err != nil {
+		fmt.Printf("=== WAL %s: %v\n", title, err)
+		return
+	}
+	defer f.Close()
+	fi, _ := f.Stat()
+	fmt.Printf("=== WAL %s: %d bytes\n", title, fi.Size())
+	dec := consensus.NewWALDecoder(f)
+	for i := 0; ; i++ {
+		pos, _ := f.Seek(0, io.SeekCurrent)
+		m, err := dec.Decode()
+		if err != nil {
+			fmt.Printf("  #%d @<=%d: %v\n", i, pos, err)
+			return
+		}
+		s := fmt.Sprintf("%T %v", m.Msg, m.Msg)
+		if len(s) > 150 {
+			s = s[:150]
+		}
+		fmt.Printf("  #%d %s\n", i, s)
+	}
+}
